@@ -121,6 +121,14 @@ def c14_workload(rng, tier):
     big = "9" * 4401
     texts.append("\n".join(["", "  SPEC", "", "  0  0  0     0  0            999 V3000", "M  V30 BEGIN CTAB", "M  V30 COUNTS 1 0 0 0 0", "M  V30 BEGIN ATOM",
                             "M  V30 1 C 0 0 0 0 MASS=" + big, "M  V30 END ATOM", "M  V30 END CTAB", "M  END"]))
+    for i in range(3 if tier == "quick" else 12):
+        M = textgen.abstract_molecule(rng, 6, coords=["0", "1.5"])
+        for a in M["atoms"]:
+            a["rad"] = 0
+        for j in range(2):
+            lines, _ = textgen.render_v3000(M, rng, perm=gen.random_perm(rng, len(M["atoms"])), opts={"star": False})
+            t = "\n".join(lines)
+            items.append({"key": f"writecalccanon|{hashlib.sha1(t.encode()).hexdigest()[:12]}", "op": "writecalccanon", "arg": t})
     for i, t in enumerate(texts):
         for op in ("read", "pipeline", "write") + (("writecalc",) if i % 3 == 0 else ()):
             items.append({"key": f"{op}|{hashlib.sha1(t.encode()).hexdigest()[:12]}", "op": op, "arg": t})
@@ -196,11 +204,15 @@ def threaded_results(items, nthreads, rng, shared_objects=True):
         with lock:
             res.append(mine)
     try:
-        ts = [threading.Thread(target=worker, args=(rng.random(),)) for _ in range(nthreads)]
+        ts = [threading.Thread(target=worker, args=(rng.random(),), daemon=True) for _ in range(nthreads)]
         for t in ts:
             t.start()
+        deadline = time.time() + 600
         for t in ts:
-            t.join()
+            t.join(max(1.0, deadline - time.time()))
+        if any(t.is_alive() for t in ts):
+            # callers that never return (a lock left held, a wait on another caller): reported, the threads are abandoned
+            res.append([{"key": "sh-exc|blocked", "val": "EXC:concurrent-callers-did-not-return"}])
     finally:
         sys.setswitchinterval(old)
     # the sequential answers for the shared-object calls
@@ -350,6 +362,13 @@ def families(n, rng):
         return f"C{2 * k}/" + "".join(f"({i}-{i + 1})" for i in range(1, k)) + "".join(f"({k + i}-{k + i + 1})" for i in range(1, k)) + "".join(f"({i}-{k + i})" for i in range(1, k + 1))
     def star(k):
         return f"CH{k - 1}/" + "".join(f"({i}-{k})" for i in range(1, k))
+    def cstar(k):          # an all-carbon star: the hub and its leaves are one element
+        return f"C{k}/" + "".join(f"(1-{i})" for i in range(2, k + 1))
+    def wheel(k):          # hub bonded to every atom of a ring
+        return f"C{k}/" + "".join(f"(1-{i})" for i in range(2, k + 1)) + "".join(f"({i}-{i + 1})" for i in range(2, k)) + f"(2-{k})"
+    def hubchain(k):       # a long chain with one atom carrying ten extra substituents of its own element
+        h = k // 2
+        return f"C{k + 10}/" + "".join(f"({i}-{i + 1})" for i in range(1, k)) + "".join(f"({h}-{k + j})" for j in range(1, 11))
     def isolated(k):
         return f"Ar{k}/"
     def waters(k):         # k components H2O: H's are 1..2k, O's 2k+1..3k
@@ -369,7 +388,7 @@ def families(n, rng):
         return f"C{k}/" + "".join(f"({i}-{j})" for i in range(1, k + 1) for j in range(i + 1, k + 1))
     kn = min(n, 90)          # complete graphs: the number of bonds, not of atoms, is what grows
     return {"chain": chain(n), "ring": ring(n), "comb": comb(n // 2), "ladder": ladder(n // 2), "star": star(n), "isolated": isolated(n),
-            "waters": waters(n // 3), "ions": ions(n // 2), "peptide": peptide(n // 4), "complete": complete(kn)}
+            "waters": waters(n // 3), "ions": ions(n // 2), "peptide": peptide(n // 4), "complete": complete(kn), "cstar": cstar(min(n, 400)), "wheel": wheel(min(n, 300)), "hubchain": hubchain(n)}
 
 
 def run_pipeline_depth(s, limit=None):
